@@ -62,3 +62,60 @@ func zzH_C20_certificate_pool_concurrent(t *zzT) {
 	}
 	t.Reach("end")
 }
+
+// C20.d / C06: the SAME single commit arrives twice at the same time (two gossip validators decode the same
+// message on two goroutines, or the node's own commit meets its echo): after both Add calls returned the pool
+// holds it exactly once — for every interleaving; a duplicate would be counted twice in the aggregate (defect
+// a31da3a). The duplicate test and the insertion must be one critical section (seed C20-11 split them).
+// Natively the interleaving cannot be steered: the two adders are released together, many rounds.
+//
+//zz:opt loop=64 sched=2 join=1 race=1 racereport=1 schedule=1 blockfree=0
+//zz:thorough sched=3
+func zzH_C20_certificate_pool_equal_adds(t *zzT) {
+	rounds, adders, prefill := 1, 2, 0
+	if !t.Symbolic() {
+		// natively the window between the duplicate test and the insertion is hit by chance: a long pool (the
+		// test scans it) and four adders make a split critical section show within a few hundred rounds
+		rounds, adders, prefill = 20000, 4, 256
+	}
+	h := uint32(t.U8("height"))
+	other := t.Bool("other.commit.present")
+	for r := 0; r < rounds; r++ {
+		p := NewPool()
+		want := 1
+		if other {
+			p.Add(&SingleCommit{blockID: []byte{9}, height: h, validatorAddress: []byte{9}})
+			want++
+		}
+		for i := 0; i < prefill; i++ {
+			p.Add(&SingleCommit{blockID: []byte{8, byte(i)}, height: h + 1 + uint32(i), validatorAddress: []byte{8, byte(i)}})
+		}
+		mk := func() *SingleCommit {
+			return &SingleCommit{blockID: []byte{1}, height: h, validatorAddress: []byte{1}, certificateSignature: []byte{7}}
+		}
+		cs := make([]*SingleCommit, adders)
+		var wg sync.WaitGroup
+		wg.Add(adders)
+		start := make(chan struct{})
+		for i := range cs {
+			cs[i] = mk()
+			c := cs[i]
+			go func() { defer wg.Done(); <-start; p.Add(c) }()
+		}
+		close(start)
+		wg.Wait()
+		n := 0
+		for _, c := range cs { // whichever copy won
+			n += zz06Count(p.gossiped, c) + zz06Count(p.nonGossiped, c)
+		}
+		if n != 1 || p.Size() != want+prefill || len(p.Get(h)) != want {
+			t.Fail("two concurrent Adds of an equal commit leave it in the pool exactly once")
+			break
+		}
+	}
+	t.Reach("end")
+}
+
+//zz:opt loop=64 sched=2 join=1 race=1 racereport=1 schedule=1 blockfree=0
+//zz:thorough sched=3
+func zzH_C06_certificate_pool_equal_adds(t *zzT) { zzH_C20_certificate_pool_equal_adds(t) }
